@@ -966,20 +966,33 @@ def m_indexmap_into_iter(interp, path, args, ret_ty, callee):
     return StructV("IndexMapIntoIter", list(m.fields))
 
 
-@model(r"^<(map::)?IntoIter<.*> as Iterator>::map::<.*>$", "lazy map adaptor (iterator, closure)")
+BASE_ITERS = ("IndexMapIntoIter", "VecIntoIter", "SetRefIter")
+
+
+def _base_items(it):
+    """elements an entry-list iterator still yields (by value, or by reference for a borrowing iterator)"""
+    from .interp import _ConstRef
+    if it.ty == "SetRefIter":
+        return [_ConstRef("&" + getattr(e, "ty", "T"), e) for e in it.fields]
+    return list(it.fields)
+
+
+@model(r"^<(map::|vec::|slice::)?(IntoIter|Iter)<.*> as Iterator>::map::<.*>$", "lazy map adaptor (iterator, closure)")
 def m_iter_map(interp, path, args, ret_ty, callee):
-    if args[0].kind != "struct" or args[0].ty != "IndexMapIntoIter":
+    if args[0].kind != "struct" or args[0].ty not in BASE_ITERS:
         raise Refuse("Iterator::map over %r" % (args[0],))
     return StructV("IterMap", [args[0], args[1]])
 
 
-@model(r"^<Map<.*> as Iterator>::collect::<Result<IndexMap<.*>$",
-       "apply the closure to each entry in order; first Err wins, else Ok(IndexMap of the results)")
+@model(r"^<Map<.*> as Iterator>::collect::<Result<(IndexMap|Vec)<.*>$",
+       "apply the closure to each entry in order; first Err wins, else Ok(collection of the results)")
 def m_iter_collect_result_map(interp, path, args, ret_ty, callee):
     it = args[0]
     if it.kind != "struct" or it.ty != "IterMap":
         raise Refuse("collect over %r" % (it,))
-    entries, clo = it.fields[0].fields, it.fields[1]
+    if it.fields[0].kind != "struct" or it.fields[0].ty not in BASE_ITERS:
+        raise Refuse("collect over %r" % (it.fields[0],))
+    entries, clo = _base_items(it.fields[0]), it.fields[1]
     from .interp import _ConstRef
     outs = []
     work = [(path, 0, [])]
@@ -1415,9 +1428,9 @@ def m_intoiter_collect_btree(interp, path, args, ret_ty, callee):
     return _entries_to_symmap(it.fields)
 
 
-@model(r"^<(map::)?IntoIter<.*> as Iterator>::filter_map::<.*>$", "lazy filter_map adaptor (iterator, closure)")
+@model(r"^<(map::|vec::|slice::)?(IntoIter|Iter)<.*> as Iterator>::filter_map::<.*>$", "lazy filter_map adaptor (iterator, closure)")
 def m_iter_filter_map(interp, path, args, ret_ty, callee):
-    if args[0].kind != "struct" or args[0].ty != "IndexMapIntoIter":
+    if args[0].kind != "struct" or args[0].ty not in BASE_ITERS:
         raise Refuse("Iterator::filter_map over %r" % (args[0],))
     return StructV("IterFilterMap", [args[0], args[1]])
 
@@ -1427,8 +1440,8 @@ def _materialize(interp, path, it):
     from .interp import _ConstRef
     if it.kind == "struct" and norm_ty(it.ty).startswith("IndexMap<"):
         return [(path, list(it.fields))], []
-    if it.kind == "struct" and it.ty == "IndexMapIntoIter":
-        return [(path, list(it.fields))], []
+    if it.kind == "struct" and it.ty in BASE_ITERS:
+        return [(path, _base_items(it))], []
     if it.kind == "struct" and it.ty in ("IterMap", "IterFilterMap"):
         base, bad = _materialize(interp, path, it.fields[0])
         clo = it.fields[1]
@@ -1453,6 +1466,12 @@ def _materialize(interp, path, it):
                             work.append((p2, i + 1, acc + [r.variants[1][0]] if tag == "some" else acc))
         return done, bad
     raise Refuse("cannot iterate %r" % (it,))
+
+
+@model(r"^<(FilterMap|Map)<.*> as Iterator>::collect::<Vec<.*>$", "evaluate the adaptor chain in order into a vector")
+def m_iter_collect_vec(interp, path, args, ret_ty, callee):
+    done, bad = _materialize(interp, path, args[0])
+    return [Outcome(p, "ret", StructV(ret_ty or "Vec<?>", items)) for p, items in done] + bad
 
 
 @model(r"^<Map<.*> as Iterator>::collect::<(BTreeMap|IndexMap)<.*>$",
